@@ -27,6 +27,7 @@ struct Out {
     hash_types: Vec<(String, String)>,                            // file, printed `HashMap<..>` / `HashSet<..>` type
     self_calls: Vec<(String, String)>,                            // file, fn: one entry per call of a fn to itself
     loops: Vec<(String, String, String)>,                         // file, fn, `loop` / `while` (unbounded iteration)
+    binder_formats: Vec<(String, String, String, String)>,        // file, fn, resolved prefix, kind (index / ident)
     errors: Vec<String>,
 }
 
@@ -77,6 +78,9 @@ struct V<'a> {
     fn_stack: Vec<String>,
     out: &'a mut Out,
     tmpl_ord: BTreeMap<String, usize>,
+    /// local variable -> (prefix, kind) when it was last assigned from `format_ident!`
+    binder_vars: BTreeMap<String, (String, String)>,
+    last_format: Option<(String, String)>,
 }
 
 impl<'a> V<'a> {
@@ -123,7 +127,35 @@ impl<'a> V<'a> {
             "debug_assert" | "debug_assert_eq" | "debug_assert_ne" => {
                 self.site("debug_assert", mac.tokens.to_string());
             },
-            "format" | "stringify" | "vec" | "matches" | "format_args" | "write" | "writeln" | "format_ident" | "compile_error"
+            "format_ident" => {
+                // `format_ident!("<prefix>{}", arg)`: the generated binder names. `arg` is an index, a user
+                // identifier, or a binder made by an earlier `format_ident!` (then the prefixes compose).
+                match mac.parse_body_with(syn::punctuated::Punctuated::<syn::Expr, syn::Token![,]>::parse_terminated) {
+                    Ok(args) if args.len() == 2 => {
+                        let fmt = args[0].to_token_stream().to_string();
+                        let fmt = fmt.trim_matches('"').to_string();
+                        let arg = args[1].to_token_stream().to_string();
+                        match fmt.strip_suffix("{}") {
+                            Some(prefix) if !prefix.contains('{') => {
+                                let (prefix, kind) = if arg.contains("index") {
+                                    (prefix.to_string(), "index".to_string())
+                                } else if let Some((p0, k0)) = self.binder_vars.get(&arg) {
+                                    (format!("{}{}", prefix, p0), k0.clone())
+                                } else {
+                                    (prefix.to_string(), "ident".to_string())
+                                };
+                                let f = self.cur_fn();
+                                self.out.binder_formats.push((self.file.clone(), f, prefix.clone(), kind.clone()));
+                                self.last_format = Some((prefix, kind));
+                            },
+                            _ => self.out.errors.push(format!("{}: unrecognised format_ident! format `{}`", self.file, fmt)),
+                        }
+                        self.visit_expr(&args[1]);
+                    },
+                    _ => self.out.errors.push(format!("{}: unrecognised format_ident! call", self.file)),
+                }
+            },
+            "format" | "stringify" | "vec" | "matches" | "format_args" | "write" | "writeln" | "compile_error"
             | "println" | "eprintln" | "concat" | "cfg" => {
                 // expression-list macros: visit the arguments that parse as expressions
                 if let Ok(args) = mac.parse_body_with(syn::punctuated::Punctuated::<syn::Expr, syn::Token![,]>::parse_terminated) {
@@ -175,6 +207,18 @@ impl<'a, 'ast> Visit<'ast> for V<'a> {
 
     fn visit_macro(&mut self, m: &'ast syn::Macro) {
         self.handle_macro(m);
+    }
+
+    fn visit_local(&mut self, l: &'ast syn::Local) {
+        self.last_format = None;
+        visit::visit_local(self, l);
+        if let (syn::Pat::Ident(pi), Some(init)) = (&l.pat, &l.init) {
+            if let syn::Expr::Macro(_) = init.expr.as_ref() {
+                if let Some(fk) = self.last_format.take() {
+                    self.binder_vars.insert(pi.ident.to_string(), fk);
+                }
+            }
+        }
     }
 
     fn visit_expr_method_call(&mut self, e: &'ast syn::ExprMethodCall) {
@@ -357,7 +401,7 @@ pub fn run(root: &str, outdir: &str) -> i32 {
                 _ => {},
             }
         }
-        let mut v = V { file: rel.clone(), fn_stack: vec![], out: &mut out, tmpl_ord: BTreeMap::new() };
+        let mut v = V { file: rel.clone(), fn_stack: vec![], out: &mut out, tmpl_ord: BTreeMap::new(), binder_vars: BTreeMap::new(), last_format: None };
         v.visit_file(&file);
         parsed.push((rel, file));
     }
@@ -415,6 +459,23 @@ pub fn run(root: &str, outdir: &str) -> i32 {
     writeln!(t, "\ndef templates : List (List Tok) := [{}]", tmpl_names.join(", ")).unwrap();
     writeln!(t, "\ndef templateKeys : List String := [{}]",
         out.templates.iter().map(|(f, g, o, _)| lean_str(&format!("{}::{}#{}", f, g, o))).collect::<Vec<_>>().join(", ")).unwrap();
+    // group = directory of the file: templates of one handler are composed with each other
+    let mut dirs: Vec<String> = out.templates.iter().map(|(f, _, _, _)| f.rsplit_once('/').map(|x| x.0.to_string()).unwrap_or_default()).collect();
+    dirs.sort();
+    dirs.dedup();
+    writeln!(t, "\n/-- per template: index of the directory (handler) it belongs to -/\ndef templateGroups : List Nat := [{}]",
+        out.templates.iter().map(|(f, _, _, _)| {
+            let d = f.rsplit_once('/').map(|x| x.0.to_string()).unwrap_or_default();
+            dirs.iter().position(|x| *x == d).unwrap().to_string()
+        }).collect::<Vec<_>>().join(", ")).unwrap();
+    writeln!(t, "def templateGroupNames : List String := [{}]", dirs.iter().map(|d| lean_str(d)).collect::<Vec<_>>().join(", ")).unwrap();
+    let mut bf: Vec<(String, String, String)> = out.binder_formats.iter().map(|(f, _, p, k)| (f.clone(), p.clone(), k.clone())).collect();
+    bf.sort();
+    bf.dedup();
+    writeln!(t, "\n/-- `format_ident!` binder formats: (file, prefix as code points, kind: 0 = tuple index, 1 = identifier) -/").unwrap();
+    writeln!(t, "def binderFormats : List (String × List Nat × Nat) := [").unwrap();
+    let rows: Vec<String> = bf.iter().map(|(f, p, k)| format!("  ({}, [{}], {})", lean_str(f), p.chars().map(|c| (c as u32).to_string()).collect::<Vec<_>>().join(", "), if k == "index" { 0 } else { 1 })).collect();
+    writeln!(t, "{}\n]", rows.join(",\n")).unwrap();
     writeln!(t, "\ndef identNames : List String := [{}]", names.iter().map(|n| lean_str(n)).collect::<Vec<_>>().join(", ")).unwrap();
     writeln!(t, "\nend Educe.Generated").unwrap();
     std::fs::write(Path::new(outdir).join("Templates.lean"), t).unwrap();
